@@ -20,6 +20,7 @@ HALVES = {
     "C14": props.C14_SERVER_PART,
     "C18": props.C18_SERVER_PART,
     "C02": props.C02_SERVER_PART,
+    "EXEC": props.EXEC_PART,
 }
 
 
